@@ -9,7 +9,7 @@
    no triangle is degenerate, no directed edge is used twice and the reverse of every used directed edge is
    used too — i.e. a closed (boundaryless, 2-manifold-edged), consistently oriented surface. *)
 From PF Require Import Gen.Closed Gen.ClosedProofs Gen.FamilyProofs Gen.Sphere Gen.Hemisphere Gen.Cylinder Gen.Cube
-  Gen.CylinderProofs Gen.SphereProofs Gen.CubeProofs Gen.GenProofs.
+  Gen.CylinderProofs Gen.SphereProofs Gen.CubeProofs Gen.CylinderGeom Gen.SphereGeom Gen.GenProofs.
 From Coq Require Import Reals.
 Open Scope N_scope.
 
@@ -116,6 +116,55 @@ Theorem cube_positions_Z : forall a b c : Z,
   cubeQ_posR (IZR a) (IZR b) (IZR c) = map rv3 (cubeQ_pos a b c).
 Proof. intros. split; [apply CubeProofs.cubeW_posR_Z|apply CubeProofs.cubeQ_posR_Z]. Qed.
 Print Assumptions cube_positions_Z.
+
+(* ---------- the cylinder over the reals: faces and supplied normals point outward, every side count >= 3 ----------
+   column k of Cylinder{Sides: n, Radius: rad, Height: h} sits at angle (1/n * 2*pi) * k; the two side triangles and
+   the two cap wedges between columns k and k+1 (k real: covers the seam column too) face away from the centre *)
+Theorem cyl_faces_outward : forall (n : nat) (rad h k : R), (3 <= n)%nat -> 0 < rad -> 0 < h ->
+  let inc := 1 / INR n * 2 * PI in
+  let a0 := inc * k in let a1 := inc * (k + 1) in
+  let T0 : rvec := (cos a0 * rad, h / 2, sin a0 * rad) in let B0 : rvec := (cos a0 * rad, - (h / 2), sin a0 * rad) in
+  let T1 : rvec := (cos a1 * rad, h / 2, sin a1 * rad) in let B1 : rvec := (cos a1 * rad, - (h / 2), sin a1 * rad) in
+  rfaces_away rzero (B0, T0, T1) /\ rfaces_away rzero (B0, T1, B1) /\
+  rfaces_away rzero (T0, (0, h / 2, 0), T1) /\ rfaces_away rzero (B1, (0, - (h / 2), 0), B0).
+Proof. exact CylinderGeom.cyl_faces_outward. Qed.
+Print Assumptions cyl_faces_outward.
+
+(* side normals (cos, +-0.1, sin) and cap normals (0, +-1, 0), up to the positive normalising factor, are on the
+   outer side of every incident face *)
+Theorem cyl_normals_outward : forall (n : nat) (rad h k : R), (3 <= n)%nat -> 0 < rad -> 0 < h ->
+  let inc := 1 / INR n * 2 * PI in
+  let a0 := inc * k in let a1 := inc * (k + 1) in
+  let T0 : rvec := (cos a0 * rad, h / 2, sin a0 * rad) in let B0 : rvec := (cos a0 * rad, - (h / 2), sin a0 * rad) in
+  let T1 : rvec := (cos a1 * rad, h / 2, sin a1 * rad) in let B1 : rvec := (cos a1 * rad, - (h / 2), sin a1 * rad) in
+  let n0t : rvec := (cos a0, 1 / 10, sin a0) in let n0b : rvec := (cos a0, - (1 / 10), sin a0) in
+  let n1t : rvec := (cos a1, 1 / 10, sin a1) in let n1b : rvec := (cos a1, - (1 / 10), sin a1) in
+  0 < rdot (rfnormal (B0, T0, T1)) n0b /\ 0 < rdot (rfnormal (B0, T0, T1)) n0t /\ 0 < rdot (rfnormal (B0, T0, T1)) n1t /\
+  0 < rdot (rfnormal (B0, T1, B1)) n0b /\ 0 < rdot (rfnormal (B0, T1, B1)) n1t /\ 0 < rdot (rfnormal (B0, T1, B1)) n1b /\
+  0 < rdot (rfnormal (T0, (0, h / 2, 0), T1)) (0, 1, 0) /\ 0 < rdot (rfnormal (B1, (0, - (h / 2), 0), B0)) (0, -1, 0).
+Proof. exact CylinderGeom.cyl_normals_outward. Qed.
+Print Assumptions cyl_normals_outward.
+
+(* ---------- the UV sphere over the reals: faces point outward ----------
+   ring vertices are (sin phi * cos theta, cos phi, sin phi * sin theta) * radius with phi = pi*(i+1)/rows
+   (0 < phi < pi, consecutive rings pi/rows apart) and theta = 2*pi*j/columns (consecutive columns 2*pi/columns < pi
+   apart for columns >= 3, the seam included).  For any such angles the pole-fan triangles and both triangles of a quad
+   (in the generator's winding) face away from the centre. *)
+Theorem sphere_faces_outward : forall rad phi0 phi1 th0 th1 : R,
+  0 < rad -> 0 < phi0 -> phi0 < phi1 -> phi1 < PI -> 0 < th1 - th0 -> th1 - th0 < PI ->
+  let V (phi th : R) : rvec := (sin phi * cos th * rad, cos phi * rad, sin phi * sin th * rad) in
+  rfaces_away rzero ((0, rad, 0), V phi0 th1, V phi0 th0) /\
+  rfaces_away rzero ((0, - rad, 0), V phi0 th0, V phi0 th1) /\
+  rfaces_away rzero (V phi0 th0, V phi0 th1, V phi1 th1) /\
+  rfaces_away rzero (V phi0 th0, V phi1 th1, V phi1 th0).
+Proof. exact SphereGeom.sphere_faces_outward. Qed.
+Print Assumptions sphere_faces_outward.
+
+(* UVSphere's vertex normal is position/|position|: its side relative to a face is the sign of the same number *)
+Theorem normal_is_position : forall a b c : rvec,
+  let n := rfnormal (a, b, c) in rdot n a = rdot n (rsub a rzero) /\ rdot n b = rdot n a /\ rdot n c = rdot n a.
+Proof. exact SphereGeom.normal_is_position. Qed.
+Print Assumptions normal_is_position.
 Close Scope R_scope.
 
 (* ---------- non-vacuity ---------- *)
